@@ -166,3 +166,21 @@ impl Slot {
 fn verify_free_list_end_is_invalid_data_index() {
     assert!(TrimmedIndex::new_u32(!FREE_BIT & FREE_LIST_END).is_none());
 }
+
+#[cfg(gecs_verif)]
+impl SlotIndex {
+    pub(crate) fn verif_raw(&self) -> u32 {
+        self.0
+    }
+}
+
+#[cfg(gecs_verif)]
+impl Slot {
+    pub(crate) fn verif_raw(&self) -> (u32, u32) {
+        (self.index.0, self.version.get().get())
+    }
+
+    pub(crate) fn verif_set_version(&mut self, version: u32) {
+        self.version = SlotVersion::new(std::num::NonZeroU32::new(version).unwrap());
+    }
+}
